@@ -31,6 +31,7 @@ type Config struct {
 	MaxPaths        int
 	SplitDepth      int
 	VerdictTimeoutS int
+	CrossTimeoutS   int
 	FeasTimeoutMs   int
 	CrossCheckEvery int
 	Only            string
@@ -477,11 +478,12 @@ type ReplayFile struct {
 	Failed     string                          `json:"failed"`
 	Pos        string                          `json:"pos"`
 	Stack      []string                        `json:"stack"`
+	Stubs      map[string]string               `json:"stubs,omitempty"`
 }
 
 func writeReplay(prop string, ob *Obligation, f Failure, n int) string {
 	rf := ReplayFile{Property: prop, Obligation: ob.Name, Harness: ob.fn.Name(), Pkg: ob.pkgPath, Choices: f.Choices, Params: ob.params,
-		Values: map[string]uint64{}, Ghost: map[string]map[string][][2]uint64{}, Kind: f.Kind, Failed: f.Msg, Pos: f.Pos, Stack: f.Stack}
+		Values: map[string]uint64{}, Ghost: map[string]map[string][][2]uint64{}, Kind: f.Kind, Failed: f.Msg, Pos: f.Pos, Stack: f.Stack, Stubs: ob.StubSpec}
 	gi := map[string]uint64{}
 	gv := map[string]uint64{}
 	for k, v := range f.Model {
@@ -551,6 +553,26 @@ func nativeReplay(l *Loaded, path string) (string, string, error) {
 		ov["Replace"][virt] = real
 	}
 	ov["Replace"][filepath.Join(repoDir, rel, "zz_verif_replay_test.go")] = testFile
+	if len(rf.Stubs) > 0 {
+		plan, err := buildHooks(l, rf.Stubs)
+		if err != nil {
+			return "", "", fmt.Errorf("native interception of stubs: %v", err)
+		}
+		n := 0
+		for file, content := range plan.files {
+			n++
+			pf := filepath.Join(tmp, fmt.Sprintf("hooked-%d-%s", n, filepath.Base(file)))
+			os.WriteFile(pf, content, 0o644)
+			ov["Replace"][file] = pf
+		}
+		for pkgPath, content := range plan.reg {
+			n++
+			pf := filepath.Join(tmp, fmt.Sprintf("reg-%d.go", n))
+			os.WriteFile(pf, []byte(content), 0o644)
+			prel := strings.TrimPrefix(pkgPath, modPath)
+			ov["Replace"][filepath.Join(repoDir, prel, "zz_verif_hooks_replay.go")] = pf
+		}
+	}
 	ovb, _ := json.Marshal(ov)
 	ovFile := filepath.Join(tmp, "overlay.json")
 	os.WriteFile(ovFile, ovb, 0o644)
@@ -673,11 +695,13 @@ func cmdCheck(args []string) int {
 	cfg.FeasTimeoutMs = 20000
 	cfg.VerdictTimeoutS = 120
 	cfg.CrossCheckEvery = 16
+	cfg.CrossTimeoutS = 15
 	cfg.SplitDepth = 2
 	if tier == "thorough" {
 		cfg.VerdictTimeoutS = 900
 		cfg.FeasTimeoutMs = 60000
 		cfg.CrossCheckEvery = 4
+		cfg.CrossTimeoutS = 120
 	}
 	if *cpuprof != "" {
 		pf, _ := os.Create(*cpuprof)
